@@ -7,6 +7,7 @@ package main
 
 import (
 	"fmt"
+	"strings"
 	"sync/atomic"
 )
 
@@ -190,7 +191,7 @@ func withHints(assump []*Term, goal *Term) ([]*Term, *Term) {
 					if len(skolems) > 0 && !isSk(c0) && !isSk(c1) {
 						continue
 					}
-					if len(skolems) == 2 && skolems[0].Sort == skolems[1].Sort {
+					if len(skolems) == 2 && skolems[0].Sort == skolems[1].Sort && sameRole(skolems[0], b0) && sameRole(skolems[1], b1) {
 						// positional: first variable from the first skolem, second from the second
 						if derivedFrom(c0, skolems[1]) || derivedFrom(c1, skolems[0]) {
 							continue
@@ -432,4 +433,17 @@ func usesDirectSelect(body, v *Term) bool {
 
 func derivedFrom(t, sk *Term) bool {
 	return t == sk || (len(t.Args) == 2 && (t.Args[0] == sk || t.Args[1] == sk))
+}
+
+
+// sameRole: the skolem constant sk!<name>!q..!n stems from a bound variable with the same source name as b.
+func sameRole(sk, b *Term) bool {
+	base := func(n string) string {
+		n = strings.TrimPrefix(n, "sk!")
+		if k := strings.Index(n, "!"); k >= 0 {
+			n = n[:k]
+		}
+		return n
+	}
+	return base(sk.Name) == base(b.Name)
 }
